@@ -140,6 +140,15 @@ for _k in dir(_real_server_log):
         setattr(_NoLog, _k, getattr(_real_server_log, _k))
 server_mod.log = _NoLog()
 imm.log = _NoLog()
+# ... and the log statements themselves are cut from the StorageServer entry points: `"...%r" % si_s` calls repr(), and
+# CrossHair forks at every repr() call (short-circuit choice), doubling the paths per statement
+for _name in ("get_buckets", "slot_readv", "slot_testv_and_readv_and_writev", "allocate_buckets", "_evaluate_test_vectors",
+              "_evaluate_write_vectors"):
+    if _name in vars(X.SS):
+        hlib.strip_method(X.SS, _name)
+for _name in ("abort", "_abort_due_to_timeout"):
+    if _name in vars(imm.BucketWriter):
+        hlib.strip_method(imm.BucketWriter, _name)
 
 
 class _T(object):
@@ -393,9 +402,10 @@ def _need(cond, what):
 
 
 def _map_with(x, keys):
-    _need(isinstance(x, dict) and len(x) == len(keys), "map with keys %r" % (keys,))
+    # (no eager %r formatting here: under CrossHair every repr() call is a fork point)
+    _need(isinstance(x, dict) and len(x) == len(keys), "map with the wrong number of keys")
     for k in keys:
-        _need(k in x, "key %r" % (k,))
+        _need(k in x, "missing key")
 
 
 def _uint_set(x, what):
